@@ -11,6 +11,7 @@ store actions (freshness at every group creation, counter a legal successor
 at every step) and checks the final state: literals non-zero integers in
 range, declared count = the documented one (Families.tla / Transform.tla).
 """
+import io
 import json
 import numbers
 import os
@@ -510,25 +511,62 @@ def main(argv=None):
              and max([len(c) for c in b[5].clauses()] or [0]) <= 4]
     ck.rng.shuffle(small)
     small = [b for b in small if b[0].startswith("unused-")] + [b for b in small if not b[0].startswith("unused-")]
+    shuffle_modes = [("shuffle", "shuffle", "shuffle"), ("fixed", "fixed", "fixed"), ("fixed", "fixed", "shuffle"),
+                     ("shuffle", "fixed", "fixed"), ("fixed", "shuffle", "fixed")]
+    nsh = [0]
+
+    def extended(rid, T):
+        """The caller keeps building on a result: a clause on two further variables, a new variable, a new
+        block - the whole log of that object must still be a legal history of the store."""
+        n = int(T.number_of_variables())
+        try:
+            T.add_clause([n + 1, -(n + 2)])
+            T.new_variable("late")
+            T.new_block(2, label="late_{}")
+            emit(rid + "-ext", "none", {"n0": n + 5}, None, None, [], T, "ok")
+        except Exception as e:
+            emit(rid + "-ext", "none", {"n0": n + 5}, None, None, [], None, exc_name(e))
+
     for rid, fam, par, graph, graph2, F in small[: (6 if ck.quick else 14)]:
-        for kind, k, C in CHAIN_KINDS:
-            def app(G, kind=kind, k=k, C=C):
-                return Shuffle(G) if kind == "shuffle" else c05.apply(kind, G, k, C, None)
+        for kind, k, C in CHAIN_KINDS + [("shuffle", 1, 0)] * 4:
+            if kind == "shuffle":
+                nsh[0] += 1
+            def app(G, kind=kind, k=k, C=C, mode=shuffle_modes[nsh[0] % 5]):
+                return Shuffle(G, *mode) if kind == "shuffle" else c05.apply(kind, G, k, C, None)
+            tag = kind if kind != "shuffle" else "shuffle%d" % (nsh[0] % 5)
             try:
                 T1 = app(F)
-                emit("%s-T-%s" % (rid, kind), fam, par, graph, graph2, [{"kind": kind, "k": k, "C": C}], T1, "ok")
+                emit("%s-T-%s" % (rid, tag), fam, par, graph, graph2, [{"kind": kind, "k": k, "C": C}], T1, "ok")
+                if T1.number_of_variables() <= 200:
+                    extended("%s-T-%s" % (rid, tag), app(F))
             except Exception as e:
-                emit("%s-T-%s" % (rid, kind), fam, par, graph, graph2, [{"kind": kind, "k": k, "C": C}], None, exc_name(e))
+                emit("%s-T-%s" % (rid, tag), fam, par, graph, graph2, [{"kind": kind, "k": k, "C": C}], None, exc_name(e))
                 continue
             if T1.number_of_variables() <= 130 and len(T1) <= 300 and max([len(c) for c in T1.clauses()] or [0]) <= 4:
                 kind2, k2, C2 = ck.rng.choice(CHAIN_KINDS)
                 try:
                     T2 = Shuffle(T1) if kind2 == "shuffle" else c05.apply(kind2, T1, k2, C2, None)
-                    emit("%s-T-%s-%s" % (rid, kind, kind2), fam, par, graph, graph2,
+                    emit("%s-T-%s-%s" % (rid, tag, kind2), fam, par, graph, graph2,
                          [{"kind": kind, "k": k, "C": C}, {"kind": kind2, "k": k2, "C": C2}], T2, "ok")
                 except Exception as e:
-                    emit("%s-T-%s-%s" % (rid, kind, kind2), fam, par, graph, graph2,
+                    emit("%s-T-%s-%s" % (rid, tag, kind2), fam, par, graph, graph2,
                          [{"kind": kind, "k": k, "C": C}, {"kind": kind2, "k": k2, "C": C2}], None, exc_name(e))
+    # a formula that was looked at (names listed, transformed once), then given more variables outside any
+    # group, then transformed: the result must count the variables the formula has now
+    import copy as _copy
+    for j, (rid, fam, par, graph, graph2, F) in enumerate(small[: (4 if ck.quick else 10)]):
+        for kind, k, C in (("xor", 2, 0), ("lift", 2, 0), ("ite", 1, 0), ("one", 3, 0), ("flip", 1, 0)):
+            G = _copy.deepcopy(F)
+            try:
+                list(G.all_variable_labels())
+                c05.apply("or", G, 2, 0, None)
+                G.to_file(io.StringIO(), export_varnames=True) if j % 2 else None
+                n = int(G.number_of_variables()) + 2
+                G.update_variable_number(n)
+                T = c05.apply(kind, G, k, C, None)
+                emit("%s-late-%s" % (rid, kind), "none", {"n0": n}, None, None, [{"kind": kind, "k": k, "C": C}], T, "ok")
+            except Exception as e:
+                emit("%s-late-%s" % (rid, kind), "none", {"n0": 0}, None, None, [{"kind": kind, "k": k, "C": C}], None, exc_name(e))
     # command line tools
     cli = [(["php", "9", "7"], "php", {"m": 9, "n": 7, "fun": False, "onto": False}, []),
            (["php", "6", "5", "--functional", "-T", "xor", "2"], "php", {"m": 6, "n": 5, "fun": True, "onto": False},
